@@ -93,6 +93,15 @@ Section Source.
   Theorem wrap_is_source : forall x, gen_wrap NN x = wrap1 NN x.
   Proof. reflexivity. Qed.
 
+  (* ---- src/shape/line_shape.rs: the area is the sum, in order, of one term per edge *)
+  Theorem poly_area_is_source : forall angle_term l,
+    poly_area NN angle_term l = fold_left (fun acc p => acc + gen_poly_term NN angle_term p) l n0.
+  Proof. reflexivity. Qed.
+
+  Theorem angle_term_is_source : forall fsin pi_ l,
+    gen_angle_term NN fsin pi_ l = fsin ((n2 * pi_) / nofZ (Z.of_nat (List.length l))).
+  Proof. reflexivity. Qed.
+
   (* ---- src/shape/molecular_shape2.rs *)
   Theorem mol_trimer_is_source : forall fsin fcos pi_ radius angle distance,
     gen_mol_trimer NN fsin fcos pi_ radius angle distance = mol_trimer NN pi_ fsin fcos radius angle distance.
